@@ -92,6 +92,7 @@ func plan(prop, tier string) []Part {
 			{Name: "pty", N: q(tier, 300, 6000), Chunk: 30, Procs: []int{2, 16, 4}, Timeout: to},
 			{Name: "none", N: q(tier, 60, 600), Chunk: 30, Procs: []int{4}, Timeout: to},
 			{Name: "delay", N: q(tier, 100, 2000), Chunk: 25, Procs: []int{4, 2}, Timeout: to},
+			{Name: "resize", N: q(tier, 150, 3000), Chunk: 30, Procs: []int{2, 16, 4}, Timeout: to},
 		}
 	case "C18":
 		return []Part{
